@@ -21,7 +21,7 @@ EXPLANATION = (
     "C16.5 sockaddr_in gets the port in network order and the address bytes in memory order; the Unix address conversion rejects a path that has no terminator within 108 bytes and reports len(path incl. NUL) + size_of(sa_family_t). "
     "C16.1 also: descriptors are produced only from a header with cmsg_level == SOL_SOCKET and cmsg_type == SCM_RIGHTS. "
     "C16.3 also: with a timeout given, ppoll is never called without a timespec (a zero limit stays a limit); C16.1 also: the send-side control buffer is sized from the byte count that is copied into it. "
-    "C16.1 also: a length taken from the control buffer is never the subtrahend of an unchecked subtraction (end-of-buffer tests are written additively). NOT decided: in-order complete delivery when buffers fill, completion of blocking calls when the peer acts, timing bounds (kernel and scheduling).")
+    "C16.1 also: a length taken from the control buffer is never the subtrahend of an unchecked subtraction (end-of-buffer tests are written additively). C16.1 also: a control message of another kind is stepped over; the iterator answers None only for want of a further header. NOT decided: in-order complete delivery when buffers fill, completion of blocking calls when the peer acts, timing bounds (kernel and scheduling).")
 ASSUMPTIONS = ["struct msghdr / cmsghdr layout of Linux", "ppoll returns 0 exactly on timeout"]
 
 NET = "tiny_std::net::"
